@@ -149,6 +149,15 @@ class C20(Lab):
             # the same for other byte containers
             if len(d) <= 16 and (self.call(list(d)) != want or self.call(bytearray(d)) != want or self.call(memoryview(d)) != want or self.call(tuple(d)) != want):
                 raise Violation("C20/value", f"crc7 differs between bytes/list/bytearray for {d.hex()}")
+            # a call that fails part-way (an element that is no byte) must not leave anything behind
+            if 1 <= len(d) <= 32:
+                for bad in (list(d) + [256], list(d) + [-1000], list(d) + ["x"]):
+                    try:
+                        self.crc7(bad)
+                    except Exception:  # noqa - rejecting the input is fine, so is any result
+                        pass
+                    if self.call(d) != want:
+                        raise Violation("C20/value-after-failed-call", f"after a call with the non-byte element {bad[-1]!r}: crc7({d.hex()}) = {self.call(d)}, bit-serial {want}")
             # ... and for one buffer object that is modified in place between calls (how a protocol
             # driver re-uses its receive buffer): the checksum is a function of the contents only
             if 1 <= len(d) <= 64:
